@@ -5,6 +5,7 @@
 
 #![allow(dead_code, unused_imports)]
 mod alpha;
+mod assetsobs;
 mod astobs;
 mod compobs;
 mod cksumobs;
@@ -34,12 +35,21 @@ fn main() {
     // keep panic noise out of stderr; panics are data
     std::panic::set_hook(Box::new(|_| {}));
     let args: Vec<String> = std::env::args().collect();
-    if args.len() < 4 {
+    if args.len() < 4 && !(args.len() >= 2 && args[1] == "keyorder") {
         eprintln!("usage: msverif <cmd> <cases.ndjson> <out.ndjson> [args]");
         std::process::exit(2);
     }
     let cmd = args[1].as_str();
     let u = uni::Universe::new();
+    if cmd == "keyorder" {
+        // BIP67 order of the universe's keys: ids sorted by compressed / x-only serialisation
+        let mut c: Vec<usize> = (1..=uni::MAX_KEYS).collect();
+        c.sort_by_key(|k| u.pks[*k].serialize());
+        let mut x: Vec<usize> = (1..=uni::MAX_KEYS).collect();
+        x.sort_by_key(|k| u.xonly[*k].serialize());
+        println!("{}", serde_json::json!({"c": c, "x": x}));
+        return;
+    }
     let inp = BufReader::new(File::open(&args[2]).expect("open cases"));
     let mut out = BufWriter::new(File::create(&args[3]).expect("create out"));
     let mut n_in = 0usize;
@@ -72,6 +82,7 @@ fn main() {
             "cksum" => cksumobs::run_case(&u, &case),
             "poltext" => poltext::run_case(&u, &case),
             "trsat" => trsat::run_case(&u, &case),
+            "assets" => assetsobs::run_case(&u, &case),
             "translate" => transobs::run_case(&u, &case),
             _ => {
                 eprintln!("unknown command {}", cmd);
